@@ -3,6 +3,7 @@
 
 #include <libxml/parser.h>
 
+#include "c20_ref.h"
 #include "gt.h"
 #include "gtrun.h"
 #include "prop.h"
@@ -51,6 +52,16 @@ void run(Src &src, Case &c)
         return;
     }
     RunPlan plan = makeRunPlan(gt, map);
+    // Half of the ODE / DAE models run under the stale-order protocol (kit/runner.h: computeRates at the second point,
+    // computeRates at the first point, then computeVariables at the second point): whatever is state / rate based has to be
+    // recomputed by computeVariables. Decided from the content hash, not from a tape read, so recorded tapes decode as before.
+    // Variables that vary with the VOI only are exempt at the second point under that protocol (kit/c20_ref.h).
+    const C20Staleness staleness = c20Staleness(gt);
+    plan.staleOrder = plan.ode && (c.hash >> 7) % 2 == 0;
+    if (plan.staleOrder) {
+        plan.staleResolve = c20StaleResolve(gt, map, staleness);
+        c.cls("stale-order");
+    }
     bool scaled = false, multiComp = gt.spec.comps.size() > 1;
     for (const auto &cl : gt.classes) {
         for (const auto &in : cl.inst) {
@@ -81,7 +92,7 @@ void run(Src &src, Case &c)
             return;
         }
         c.count("programs");
-        std::string d = compareRunWithTruth(gt, map, rc, kTol, &comparisons);
+        std::string d = compareRunWithTruth(gt, map, plan.staleOrder ? c20TolerateStale(gt, map, rc, staleness) : rc, kTol, &comparisons);
         if (!d.empty()) {
             c.fail("C03.value|C|" + d.substr(0, d.find('\n')), d.substr(d.find('\n') + 1) + "\n--- implementation ---\n" + impl.substr(0, 8000));
             return;
@@ -103,7 +114,7 @@ void run(Src &src, Case &c)
             return;
         }
         c.count("programs");
-        std::string d = compareRunWithTruth(gt, map, rp, kTol, &comparisons);
+        std::string d = compareRunWithTruth(gt, map, plan.staleOrder ? c20TolerateStale(gt, map, rp, staleness) : rp, kTol, &comparisons);
         if (!d.empty()) {
             c.fail("C03.value|Python|" + d.substr(0, d.find('\n')), d.substr(d.find('\n') + 1) + "\n--- implementation ---\n" + impl.substr(0, 8000));
             return;
